@@ -32,7 +32,7 @@ def configs(tier):
                         cost=len(common.all_tuples(s)) ** 2 * 3))
     # histories on one continuum object: an earlier computation, then an edit through the public API, then the alignment under test
     for s in [(2, 1), (1, 1, 1)]:
-        for warm in ("remove", "add-remove"):
+        for warm in ("remove", "add-remove", "other-continuum"):
             out.append(dict(key=f"soft,after-earlier-computation-and-{warm},sizes={s}", sizes=list(s), dissim="abstract", backend="cbc", mode="soft", warm=warm,
                             cost=len(common.all_tuples(s)) ** 2))
     if tier == "thorough":
